@@ -3,7 +3,8 @@ import Vflow.Model.Base
 # Model of the mirror path (`vflow/ipfix_unix.go: mirrorIPFIX`, `vflow/sflow_unix.go: mirrorSFlow`,
 `mirror/ipv4.go`, `mirror/udp.go`) — IPv4 target branch
 
-One loop iteration of the mirror worker, statement by statement, after the `fix:` commit for F13
+The mirror worker (set-up, one loop iteration, a sequence of iterations on the reused buffers),
+statement by statement, after the `fix:` commit for F13
 (buffer sized for the headers; `SetAddrs` normalises the source with `To4`).  Every Go operation that
 can panic is an explicit check (`make` with a negative length, every slice expression).  Core Lean only.
 
@@ -121,9 +122,15 @@ def udpSetLen (b : Bytes) (n : Nat) : Res Bytes := putU16 b 4 (udpHLen + n)
 if the payload is) -/
 def bodyCap (max : Int) (len : Nat) : Int := if max < len then len else max
 
-/-- one iteration of `mirrorIPFIX`/`mirrorSFlow` (IPv4 target) from a fresh header template:
-the octets handed to `conn.Send`.  `sport` is 55117 (IPFIX) or 55118 (sFlow). -/
-def assembleFrom (sport : Nat) (max : Int) (src dst : Bytes) (port : Nat) (payload : Bytes) : Res Bytes := do
+/-- what a mirror worker keeps across messages: the two header buffers and the packet buffer -/
+structure Worker where
+  ipHdr : Bytes
+  udpHdr : Bytes
+  packet : Bytes
+deriving Repr, DecidableEq
+
+/-- the part of `mirrorIPFIX`/`mirrorSFlow` before the loop (IPv4 target) -/
+def Worker.init (sport : Nat) (max : Int) (dst : Bytes) (port : Nat) : Res Worker := do
   -- packet = make([]byte, mirror.IPv6HLen+mirror.UDPHLen+opts.XUDPSize)
   let packet ← makeBytes (bufExtra + max)
   -- udpHdr := udp.Marshal()
@@ -131,19 +138,45 @@ def assembleFrom (sport : Nat) (max : Int) (src dst : Bytes) (port : Nat) (paylo
   -- if dst.To4() != nil { ipv4 = true }
   if (to4 dst).isNone then .v6 else
   let ipHdr ← ipv4Tpl udpProto
+  .ok ⟨ipHdr, udpHdr, packet⟩
+
+/-- one iteration of the loop for the message `(src, payload)`: the new buffers and the octets handed
+to `conn.Send` -/
+def Worker.step (w : Worker) (max : Int) (dst src payload : Bytes) : Res (Worker × Bytes) := do
   let ipHLen := ipv4HLen
   -- msg = <-ch ; pLen = len(msg.body)
   let pLen := payload.length
-  let ipHdr ← setAddrs ipHdr src dst
+  let ipHdr ← setAddrs w.ipHdr src dst
   let ipHdr ← setLen4 ipHdr (pLen + udpHLen)
-  let udpHdr ← udpSetLen udpHdr pLen
-  let packet ← copyInto packet 0 ipHLen ipHdr
+  let udpHdr ← udpSetLen w.udpHdr pLen
+  let packet ← copyInto w.packet 0 ipHLen ipHdr
   let packet ← copyInto packet ipHLen (ipHLen + 8) udpHdr
   let packet ← copyInto packet (ipHLen + 8) packet.length payload
   -- xBuffer.Put(msg.body[:opts.XUDPSize])
   if max < 0 ∨ bodyCap max pLen < max then .panic "slice bounds out of range" else
   -- conn.Send(packet[0 : ipHLen+8+pLen])
-  slice packet 0 (ipHLen + 8 + pLen)
+  let out ← slice packet 0 (ipHLen + 8 + pLen)
+  .ok (⟨ipHdr, udpHdr, packet⟩, out)
+
+/-- the loop over a sequence of messages `(src, payload)`: what is sent for each -/
+def Worker.run (w : Worker) (max : Int) (dst : Bytes) : List (Bytes × Bytes) → Res (List Bytes)
+  | [] => .ok []
+  | (src, payload) :: rest => do
+    let (w', out) ← w.step max dst src payload
+    let outs ← Worker.run w' max dst rest
+    .ok (out :: outs)
+
+/-- a whole worker life: start, then the messages in order -/
+def mirrorSeq (sport : Nat) (max : Int) (dst : Bytes) (port : Nat) (msgs : List (Bytes × Bytes)) : Res (List Bytes) := do
+  let w ← Worker.init sport max dst port
+  w.run max dst msgs
+
+/-- the first message of a fresh worker: the octets handed to `conn.Send`.
+`sport` is 55117 (IPFIX) or 55118 (sFlow). -/
+def assembleFrom (sport : Nat) (max : Int) (src dst : Bytes) (port : Nat) (payload : Bytes) : Res Bytes := do
+  let w ← Worker.init sport max dst port
+  let (_, out) ← w.step max dst src payload
+  .ok out
 
 /-- the IPFIX mirror worker (`assemble` of DESIGN.md) -/
 def assemble (max : Int) (src dst : Bytes) (port : Nat) (payload : Bytes) : Res Bytes :=
@@ -165,6 +198,16 @@ def ipv4udp (src dst : Bytes) (sport dport : Nat) (payload : Bytes) : Bytes :=
   src ++ dst ++
   encBE 2 sport ++ encBE 2 dport ++ encBE 2 (8 + payload.length) ++ [0, 0] ++
   payload
+
+/-- the 16-octet IPv4-mapped form `::ffff:a.b.c.d` of a 4-octet address (what `net.ParseIP` and a
+dual-stack socket deliver) -/
+def mapped (a : Bytes) : Bytes := List.replicate 10 0 ++ [0xff, 0xff] ++ a
+
+/-- `ip` is the IPv4 address `a` in 4-octet or in 16-octet form -/
+def IsV4 (ip a : Bytes) : Prop := a.length = 4 ∧ (ip = a ∨ ip = mapped a)
+
+/-- the last four octets of an address: the IPv4 address of either form -/
+def v4of (ip : Bytes) : Bytes := ip.drop (ip.length - 4)
 
 /-- what a receiver reads off an IPv4/UDP datagram -/
 structure Pkt4 where
